@@ -30,3 +30,15 @@ package ports
 //@   records updMult = endpoint.BackoffMultiplier
 //@   records updURL = endpoint.URLString
 //@   records updErr = err
+
+// ---- C09: routing decisions
+//@ func NewRoutingDecision
+//@   property C09
+//@   ensures res != nil && fresh(res) && res.Strategy == strategy && res.Action == action && res.Reason == reason
+//@   ensures action == "rejected" && reason == "model_not_found" ==> res.StatusCode == 404
+//@   ensures action == "rejected" && reason != "model_not_found" ==> res.StatusCode == 503
+//@   ensures action != "rejected" ==> res.StatusCode == 200
+
+// RefreshEndpoints reloads the endpoint records (trusted frame: endpoint records only)
+//@ interface DiscoveryService.RefreshEndpoints
+//@   modifies domain.Endpoint.Status, domain.Endpoint.Name, domain.Endpoint.URLString, domain.Endpoint.Priority, domain.Endpoint.Type, domain.Endpoint.NextCheckTime, domain.Endpoint.LastChecked, domain.Endpoint.ConsecutiveFailures, domain.Endpoint.BackoffMultiplier, domain.Endpoint.LastLatency
